@@ -4,6 +4,7 @@ import (
 	"fmt"
 	"go/token"
 	"go/types"
+	"sort"
 	"strings"
 
 	"golang.org/x/tools/go/ssa"
@@ -297,11 +298,18 @@ func ruleBlindBlock(c *Ctx, id string) {
 // thread panics and the truncation can never be finished.
 func ruleShrinkReserve(c *Ctx, id string) {
 	V, P, R := c.V, c.P, c.R
-	R.Rule(id, "a shrink transaction fits in the log: the round test of Inode.Shrink is NDirty() + k < LogBlocks with k >= 5 (data block, indirect, doubly indirect, inode, and the bitmap blocks of the freed bits)", 1)
+	R.Rule(id, "a shrink transaction fits in the log: the round test of Inode.Shrink is NDirty() + <bitmap blocks PreCommit will write> + k < LogBlocks with k >= 5 (data block, indirect, doubly indirect, inode, and the bitmap blocks the round can add); the count of bitmap blocks looks at every list PreCommit writes", 2)
 	if V.Shrink == nil {
 		return
 	}
 	lb := constOfPkg(P, jrnlPath+"/jrnl", "LogBlocks")
+	pcw, _ := preCommitWrites(c)
+	lists := map[string]bool{}
+	for _, w := range pcw {
+		if w.list != "" {
+			lists[w.list] = true
+		}
+	}
 	n := 0
 	for _, sc := range scopesOf(V.Shrink) {
 		for _, b := range sc.Fn.Blocks {
@@ -313,31 +321,71 @@ func ruleShrinkReserve(c *Ctx, id string) {
 				if k, isk := constInt(sc.S.resolve(bo.Y)); !isk || k != lb {
 					continue
 				}
-				add, ok := stripConv(bo.X).(*ssa.BinOp)
-				if !ok || add.Op != token.ADD {
-					continue
+				// the left side is a sum: flatten it
+				var terms []ssa.Value
+				var flat func(v ssa.Value, d int)
+				flat = func(v ssa.Value, d int) {
+					v = sc.S.resolve(stripConv(v))
+					if add, ok := v.(*ssa.BinOp); ok && add.Op == token.ADD && d < 8 {
+						flat(add.X, d+1)
+						flat(add.Y, d+1)
+						return
+					}
+					terms = append(terms, v)
 				}
-				var kres int64 = -1
-				for _, pr := range [][2]ssa.Value{{add.X, add.Y}, {add.Y, add.X}} {
-					cl, isC := sc.S.resolve(stripConv(pr[0])).(*ssa.Call)
-					if !isC || staticCallee(cl) == nil || staticCallee(cl).Name() != "NDirty" {
+				flat(bo.X, 0)
+				var kres int64
+				nd, other := 0, 0
+				var counters []*ssa.Function
+				for _, t := range terms {
+					if k, isk := constInt(t); isk {
+						kres += k
 						continue
 					}
-					if k, isk := constInt(sc.S.resolve(pr[1])); isk {
-						kres = k
+					if cl, isC := t.(*ssa.Call); isC && staticCallee(cl) != nil {
+						g := staticCallee(cl)
+						if g.Name() == "NDirty" {
+							nd++
+							continue
+						}
+						if IsRepoFunc(g) {
+							counters = append(counters, g)
+							continue
+						}
 					}
+					other++
 				}
-				if kres < 0 {
+				if nd != 1 {
 					continue
 				}
 				n++
 				R.Analysed[FuncName(sc.Fn)] = true
 				R.Check(kres >= 5, id, "inode.Shrink|log reserve per round", P.Pos(in.Pos()), fmt.Sprintf("the round test keeps %d blocks of the log free for what the round and the end of the transaction still add", kres), "k >= 5", fmt.Sprintf("the reserve is %d blocks: a shrink transaction can reach LogBlocks+1 blocks (e.g. freed blocks on both sides of a bitmap-block boundary); the journal refuses it on every retry, the shrinker thread panics and WRITE/SETATTR on that file fail for ever", kres))
+				// the bitmap blocks written by PreCommit are not dirty yet when the test is made: a term must count them,
+				// from every list PreCommit writes
+				seen := map[string]bool{}
+				for _, g := range counters {
+					for _, gs := range scopesOf(g) {
+						for _, fr := range FieldAddrs(gs.Fn) {
+							if fr.Type == V.AllocTxn {
+								seen[fr.Field] = true
+							}
+						}
+					}
+				}
+				var missing []string
+				for l := range lists {
+					if !seen[l] {
+						missing = append(missing, l)
+					}
+				}
+				sort.Strings(missing)
+				R.Check(len(lists) > 0 && len(missing) == 0, id, "inode.Shrink|round test counts the bitmap blocks of the commit", P.Pos(in.Pos()), "the sum compared with LogBlocks has a term computed from every list PreCommit writes to the bitmaps", fmt.Sprintf("%d counting term(s); lists %v", len(counters), keysOf(lists)), fmt.Sprintf("the round test does not count the bitmap blocks of %v: they are written only at commit, on top of the blocks already dirty - when the freed blocks fall into three or more bitmap blocks the transaction is larger than the log, the journal refuses it (a RENAME or REMOVE answers SERVERFAULT) and forgets how far the next COMMIT must flush: acknowledged unstable writes are lost by a crash", missing))
 			}
 		}
 	}
 	if n == 0 {
-		R.Undecided(id, "inode.Shrink|log reserve per round", P.Pos(V.Shrink.Pos()), "Shrink bounds its transaction by NDirty() + k < LogBlocks", "no test of that form found in Shrink or its helpers: how the shrink transaction is kept within the log is not decided")
+		R.Undecided(id, "inode.Shrink|log reserve per round", P.Pos(V.Shrink.Pos()), "Shrink bounds its transaction by NDirty() + ... + k < LogBlocks", "no test of that form found in Shrink or its helpers: how the shrink transaction is kept within the log is not decided")
 	}
 }
 
@@ -390,5 +438,203 @@ func ruleShortWrite(c *Ctx, id string) {
 			}
 		}
 		R.Check(used, id, FuncName(ownerOf(cs.Caller))+"|Write count used", P.Pos(call.Pos()), "the number of bytes Inode.Write reports is compared, returned or stored by the caller", "count flows into a comparison / return / reply", "the count is dropped: when the disk fills up in the middle of the data, Write returns ok with a short count and the caller commits a prefix of what it was asked to store (a symbolic link to a prefix of its target) and answers OK")
+	}
+}
+
+func keysOf(m map[string]bool) []string {
+	var out []string
+	for k := range m {
+		out = append(out, k)
+	}
+	sort.Strings(out)
+	return out
+}
+
+// ruleOkResults: the functions of package dir that change a directory answer
+// "ok" - the write can fail (the disk is full, the name does not fit, the
+// entry is not there).  A caller that drops the answer takes a failed half of
+// its operation for done: the rest is committed and acknowledged - a RENAME
+// that removed the old name and did not add the new one, a root directory
+// without "." and "..".  Every call must let the answer decide something.
+func ruleOkResults(c *Ctx, id string) {
+	V, P, R := c.V, c.P, c.R
+	R.Rule(id, "no failed directory update is taken for done: the ok result of every function of package dir that writes a directory (it reaches Inode.Write) is used at every call", 6)
+	if V.InodeWrite == nil {
+		return
+	}
+	var muts []*ssa.Function
+	for _, f := range P.RepoFuncs("dir") {
+		if f.Parent() != nil || f.Signature.Recv() != nil {
+			continue
+		}
+		res := f.Signature.Results()
+		if res.Len() == 0 {
+			continue
+		}
+		if b, ok := res.At(res.Len() - 1).Type().Underlying().(*types.Basic); !ok || b.Kind() != types.Bool {
+			continue
+		}
+		if P.Reach([]*ssa.Function{f}, func(g *ssa.Function) bool { return !IsRepoFunc(g) })[V.InodeWrite] {
+			muts = append(muts, f)
+		}
+	}
+	sort.Slice(muts, func(i, j int) bool { return FuncName(muts[i]) < FuncName(muts[j]) })
+	per := map[string]int{}
+	for _, m := range muts {
+		R.Analysed[FuncName(m)] = true
+		for _, cs := range P.CallersOf(m) {
+			if !IsRepoFunc(cs.Caller) {
+				continue
+			}
+			base := fmt.Sprintf("%s|result of %s used", FuncName(ownerOf(cs.Caller)), m.Name())
+			per[base]++
+			key := base
+			if per[base] > 1 {
+				key = fmt.Sprintf("%s#%d", base, per[base])
+			}
+			call, isC := cs.Instr.(*ssa.Call)
+			if !isC {
+				R.Fail(id, key, P.Pos(cs.Instr.Pos()), m.Name()+" is called for its result", "called by go/defer: the result is dropped")
+				continue
+			}
+			used := false
+			nres := m.Signature.Results().Len()
+			if nres == 1 {
+				used = len(refs(call)) > 0
+			} else {
+				for _, r := range refs(call) {
+					if ex, isE := r.(*ssa.Extract); isE && ex.Index == nres-1 && len(refs(ex)) > 0 {
+						used = true
+					}
+				}
+			}
+			R.Check(used, id, key, P.Pos(call.Pos()), "the caller looks at whether "+m.Name()+" succeeded", "result used", "the result of "+m.Name()+" is dropped: when the directory write fails (disk full, name too long, no such entry) the caller goes on, commits the rest of its operation and acknowledges it - half an operation becomes durable")
+		}
+	}
+}
+
+// ruleNullSource: the other half of R11.  R11 looks at functions that test a
+// block number for 0; this rule starts from where a 0 can come from: the
+// allocator (AllocBlock answers 0 when the disk is full), the block map (bmap
+// and indbmap answer 0 when they could not allocate), a pointer slot of the
+// inode or of an index block (0 = hole).  A number from such a source - as it
+// is, or merged with others in a phi - must not become a block address
+// (ReadBlock, ZeroBlock, Block2addr) unless the use lies on the "not 0" side of
+// a comparison of that very value with 0.  (FreeBlock and AssertValidBlock
+// accept 0.)  Block 0 is the header of the write-ahead log.
+func ruleNullSource(c *Ctx, id string) {
+	V, P, R := c.V, c.P, c.R
+	R.Rule(id, "a block number that can be 0 (from AllocBlock, bmap, indbmap, a pointer slot) is used as a block address only on the 'not 0' side of a test of that value", 4)
+	b2a := P.Func("super.(*FsSuper).Block2addr")
+	isAddrUse := funcIs(V.ZeroBlock, V.ReadBlock, b2a)
+	bnumGet := func(f *ssa.Function) bool { return f != nil && f.Name() == "BnumGet" }
+	isSource := func(v ssa.Value) string {
+		switch x := v.(type) {
+		case *ssa.Call:
+			g := staticCallee(x)
+			if g == nil {
+				return ""
+			}
+			if g == V.AllocBlock || bnumGet(g) {
+				return g.Name()
+			}
+		case *ssa.Extract:
+			if cl, ok := x.Tuple.(*ssa.Call); ok && x.Index == 0 {
+				if g := staticCallee(cl); g != nil && (g == V.bmap || g == V.indbmap) {
+					return g.Name()
+				}
+			}
+		case *ssa.UnOp:
+			if x.Op == token.MUL {
+				if ia, ok := x.X.(*ssa.IndexAddr); ok {
+					if nm, fl, _ := fieldLoad(ia.X); nm == V.Inode && fl == "blks" {
+						return "Inode.blks[i]"
+					}
+				}
+			}
+		}
+		return ""
+	}
+	n := 0
+	for _, fn := range P.RepoFuncs("alloctxn", "inode", "dir", "nfs", "fstxn", "shrinker") {
+		if fn.Blocks == nil {
+			continue
+		}
+		per := map[string]int{}
+		for _, call := range P.CallsIn(fn, isAddrUse) {
+			arg := stripConv(argN(call, 0))
+			// the values the argument can be: itself, and what a phi merges
+			cands := map[ssa.Value]bool{}
+			src := ""
+			var walk func(v ssa.Value, d int)
+			walk = func(v ssa.Value, d int) {
+				v = stripConv(v)
+				if v == nil || cands[v] || d > 6 {
+					return
+				}
+				cands[v] = true
+				if s := isSource(v); s != "" && src == "" {
+					src = s
+				}
+				if ph, ok := v.(*ssa.Phi); ok {
+					for _, e := range ph.Edges {
+						walk(e, d+1)
+					}
+				}
+			}
+			walk(arg, 0)
+			if src == "" {
+				continue
+			}
+			n++
+			R.Analysed[FuncName(fn)] = true
+			base := fmt.Sprintf("%s|%s of a number from %s", FuncName(fn), staticCallee(call).Name(), src)
+			per[base]++
+			key := base
+			if per[base] > 1 {
+				key = fmt.Sprintf("%s#%d", base, per[base])
+			}
+			notNull := func(v ssa.Value) CondMatcherX {
+				return func(Subst) func(Cond) (bool, bool) {
+					return func(cd Cond) (bool, bool) {
+						if cd.Op != token.EQL && cd.Op != token.NEQ {
+							return false, false
+						}
+						for _, pr := range [][2]ssa.Value{{cd.X, cd.Y}, {cd.Y, cd.X}} {
+							if pr[0] == nil || pr[1] == nil {
+								continue
+							}
+							if k, ok := constInt(pr[1]); ok && k == 0 && stripConv(pr[0]) == v {
+								return true, cd.Op == token.NEQ
+							}
+						}
+						return false, false
+					}
+				}
+			}
+			// known non-zero at block at: tested there, or a phi every edge of which carries a value tested on its way
+			var nonNull func(v ssa.Value, at *ssa.BasicBlock, d int) bool
+			nonNull = func(v ssa.Value, at *ssa.BasicBlock, d int) bool {
+				v = stripConv(v)
+				if guardedByX(fn, at, notNull(v), nil, 0) {
+					return true
+				}
+				ph, isP := v.(*ssa.Phi)
+				if !isP || d > 4 {
+					return false
+				}
+				for i, e := range ph.Edges {
+					pred := ph.Block().Preds[i]
+					ev := stripConv(e)
+					if edgeGuardedX(fn, pred, ph.Block(), notNull(ev), nil, 0) || nonNull(ev, pred, d+1) {
+						continue
+					}
+					return false
+				}
+				return true
+			}
+			g := nonNull(arg, call.Block(), 0)
+			R.Check(g, id, key, P.Pos(call.Pos()), "the number is known to be non-zero where it is used as an address", "dominated by the != 0 side of a test of this value (or of every value merged into it)", "the number can be 0 (no block: the disk is full, or a hole) and is used as a block address without a test: block 0 is the header of the write-ahead log - it is read as file data, or zeroed / written inside a committed transaction")
+		}
 	}
 }
